@@ -90,6 +90,9 @@ type driver struct {
 	nshard   int
 	incon    []string
 	extra    []Violation // crashes, nontermination, races
+	raceRan  bool
+	raceLogs int
+	raceReps int
 	caseCPU  float64
 	wallStop time.Time
 }
@@ -403,6 +406,8 @@ var raceFrameRe = regexp.MustCompile(`^\s+(github\.com/reactivego/ivg[^\s(]*)`)
 
 func (d *driver) collectRaces() {
 	files, _ := filepath.Glob(d.dir + "/race.w*")
+	d.raceRan = true
+	d.raceLogs += len(files)
 	seen := map[string]bool{}
 	for _, f := range files {
 		fh, err := os.Open(f)
@@ -434,6 +439,7 @@ func (d *driver) collectRaces() {
 				}
 			}
 			key := strings.Join(sig, "~")
+			d.raceReps++
 			if !seen[key] {
 				seen[key] = true
 				if len(block) > 60 {
@@ -475,6 +481,7 @@ type subSummary struct {
 	Max        map[string]float64 `json:"observed_max,omitempty"`
 	Violations int64              `json:"violations"`
 	Complete   bool               `json:"complete"`
+	Capped     bool               `json:"distinct_counting_capped,omitempty"`
 }
 
 func (d *driver) finish(t0 time.Time) int {
@@ -528,6 +535,9 @@ func (d *driver) finish(t0 time.Time) int {
 			}
 			viols = append(viols, r.Violations...)
 			if hb, err := os.ReadFile(fmt.Sprintf("%s/w%d.s%d.hashes", d.dir, sh, si)); err == nil {
+				if len(hb) >= 8*maxHashesPerSub {
+					ss.Capped = true // this worker stopped recording: the rest is counted as not distinct
+				}
 				for i := 0; i+8 <= len(hb); i += 8 {
 					hashes[binary.LittleEndian.Uint64(hb[i:])] = struct{}{}
 				}
@@ -623,6 +633,10 @@ func (d *driver) finish(t0 time.Time) int {
 		"sub_monitors":        summ,
 		"exhaustive":          allExh && len(summ) > 0,
 		"workers":             d.nshard,
+	}
+	if d.raceRan {
+		cov["race_detector"] = map[string]interface{}{"build": "go build -race (implies checkptr)", "GORACE": "halt_on_error=0 log_path=<per worker>",
+			"log_files": d.raceLogs, "data_race_reports": d.raceReps}
 	}
 	ev := map[string]interface{}{
 		"property_id":  p.ID,
